@@ -250,16 +250,34 @@ func c18DataValue(c *core.Ctx, p c18Params) {
 		}
 		// with whitespace around
 		var out2 interface{}
-		ws := append([]byte(" \n\t"), append(b, ' ', '\r')...)
+		wsSeq := func() []byte {
+			var w []byte
+			for n := r.Intn(5); n > 0; n-- {
+				w = append(w, " \t\n\r"[r.Intn(4)])
+			}
+			return w
+		}
+		ws := append(append(wsSeq(), b...), wsSeq()...)
+		if i%7 == 0 {
+			ws = append([]byte(" \n\t"), append(b, ' ', '\r')...)
+		}
 		if err := resprot.UnmarshalDataValue(ws, &out2); err != nil || !reflect.DeepEqual(out2, jsonNorm(v)) {
-			c.Violation("C18/datavalue-whitespace", fmt.Sprintf("UnmarshalDataValue with surrounding whitespace: %v %s", err, jsonStr(out2)), desc)
+			d := copyDesc(desc)
+			d["text"] = string(ws)
+			c.Violation("C18/datavalue-whitespace", fmt.Sprintf("UnmarshalDataValue(%q) with surrounding JSON whitespace: err=%v value=%s, want %s", short(string(ws), 80), err, jsonStr(out2), plain), d)
+		}
+		// a character that is not JSON whitespace in front of the text is an error
+		var out3 interface{}
+		nws := append([]byte{"\f\v\x00\x1f\xa0"[r.Intn(5)]}, b...)
+		if err := resprot.UnmarshalDataValue(nws, &out3); err == nil {
+			c.Violation("C18/datavalue-accepts-invalid", fmt.Sprintf("UnmarshalDataValue(%q) returned no error although the text starts with a character that is not JSON whitespace", short(string(nws), 80)), nil)
 		}
 		if i == 5 {
 			c.Sample(desc)
 		}
 	}
 	// documented error cases
-	for _, bad := range []string{`[1,2,3]`, `{"foo":"bar"}`, ``, `   `, `{"data":`} {
+	for _, bad := range []string{`[1,2,3]`, `{"foo":"bar"}`, ``, `   `, `{"data":`, "\r[1,2,3]", "\r\n{}", "\t{\"foo\":\"bar\"}", "\n[1]", " \r {\"rid\":\"a.b\"}", "\r", "\r\n", "\f1", "{}", " { } "} {
 		var x interface{}
 		c.Eval(1)
 		if err := resprot.UnmarshalDataValue([]byte(bad), &x); err == nil {
